@@ -132,6 +132,10 @@ def step (st : DSt) (ws : List String) : DSt × String :=
     match routing.toNat?, parseBool? snap, parseBool? v2, parseToc? toc with
     | some r, some s, some v, some t => ({ st with v := { routing := r, snap := s }, h := Host.init t v, nr := false, pats := [], timers := [], scripts := [] }, "ok -")
     | _, _, _, _ => bad
+  | ["reconnect", v2, toc] =>
+    match parseBool? v2, parseToc? toc with
+    | some v, some t => ({ st with h := st.h.reconnect t v, pats := [], timers := [] }, "ok -")
+    | _, _ => bad
   | ["set-connected", b] =>
     match parseBool? b with
     | some c => ({ st with h := { st.h with connected := c } }, "ok -")
